@@ -83,7 +83,7 @@ TReset ==
   /\ flags' = {}
 
 (* Events that carry nothing the model needs. *)
-Skipped == {"app.mismatch", "car.hello", "srv.stream", "app.done", "stall", "car.refused", "ses.over"}
+Skipped == {"app.stall", "app.resume", "app.mismatch", "car.hello", "srv.stream", "app.done", "stall", "car.refused", "ses.over"}
 TSkip == l <= Len(TraceLog) /\ e.ev \in Skipped /\ Step /\ UNCHANGED vars /\ Keep
 
 TSesStart ==
@@ -209,6 +209,22 @@ TAccept ==
   /\ flags' = IF e.addr = sessAddr[e.id] THEN flags ELSE flags \cup {"RemoteAddr differs from the address looked up"}
   /\ UNCHANGED <<carrierVars, recvQ, outQ, sess, conv, syn, sessAddr, sessWant, sets, flagVars, expired, pend, getting, wr, rd>>
 
+(* app.addr: RemoteAddr() of a connection accepted for the session was read
+   again at a later moment (e.when: after a later carrier presenting the same
+   ClientID attached, when the streams were complete, after probe carriers with
+   another / no / an invalid client_ip, for a later stream of the session,
+   after eviction pressure on the bounded memory).  The property fixes the
+   address at session establishment: sessAddr[id] is that history (the result
+   of the lookup in acceptStreams, "" when nothing was found), and every later
+   read must equal it - whatever has been Set for the ClientID since, and
+   whether or not the memory still remembers it. *)
+TAddrRead ==
+  /\ Is("app.addr") /\ Step
+  /\ e.id \in Ids /\ sess[e.id] = "est"
+  /\ flags' = IF e.addr = sessAddr[e.id] THEN flags
+              ELSE flags \cup {"RemoteAddr read later (" \o e.when \o ") differs from the address fixed when the session was established"}
+  /\ UNCHANGED <<vars, pend, getting, wr, rd>>
+
 (* app.read: n bytes were read at offset off of stream (s, d); ok = they equal
    the keyed stream of that session and direction at that offset. *)
 TRead ==
@@ -240,10 +256,22 @@ TFlood ==
   /\ sets' = sets \o [j \in 1..e.n |-> [id |-> "flood", addr |-> "203.0.113.77:1", k |-> 0]]
   /\ UNCHANGED <<carrierVars, recvQ, outQ, kcpVars, flagVars, expired>> /\ Keep
 
+(* cli.pkt / srv.pkt: packets read from the carrier by the client's redial layer
+   (hook ex.read) / by the server's handler (hook srv.in); known = the driver
+   found the very same packet among those the other end wrote towards the
+   carrier (hooks srv.out / ex.write).  The carrier is a reliable ordered byte
+   stream and the framing restarts on every carrier, so every packet read is
+   one that the peer wrote: anything else is a chunk nobody wrote (framing
+   lost, bytes dropped or mixed below the packet layer). *)
+TPkt ==
+  /\ (Is("cli.pkt") \/ Is("srv.pkt")) /\ Step
+  /\ flags' = IF e.known THEN flags ELSE flags \cup {"a packet was read from the carrier that the peer never wrote"}
+  /\ UNCHANGED <<vars, pend, getting, wr, rd>>
+
 TNext ==
-  \/ TFlood \/ TEnd \/ TReset \/ TSkip \/ TSesStart \/ TCarOpen \/ TClientGone \/ TSrvClosed \/ TNotClosed
+  \/ TPkt \/ TFlood \/ TEnd \/ TReset \/ TSkip \/ TSesStart \/ TCarOpen \/ TClientGone \/ TSrvClosed \/ TNotClosed
   \/ TAttach \/ TAttached \/ TSrvIn \/ TSrvOut \/ TDetach
-  \/ TSession \/ TAcceptKcp \/ TAccept \/ TRead \/ TAppErr
+  \/ TSession \/ TAcceptKcp \/ TAccept \/ TAddrRead \/ TRead \/ TAppErr
   \/ \E k \in Carriers : TSetSilent(k)
   \/ \E id \in Ids : TGetSilent(id)
 
